@@ -105,7 +105,7 @@ pub fn gen_attrs(rng: &mut Rng, ns: bool) -> (String, Vec<(String, String)>) {
         } else {
             '\''
         };
-        let sp1 = *rng.pick(&[" ", " ", " ", "\n", "  "]);
+        let sp1 = *rng.pick(&[" ", " ", " ", "\n", "  ", "\t", "\r\n", "\n\t"]);
         let eq = *rng.pick(&["=", "=", "=", " = ", "= ", " ="]);
         raw.push_str(&format!("{}{}{}{}{}{}", sp1, k, eq, q, v, q));
         attrs.push((k, v));
